@@ -223,6 +223,7 @@ Proof. exact play_any_rz. Qed.
    reproduces S.  The side condition token_ok on the emitted tokens (parameters <= 65535, printable
    scalar values, ...) is ParseSer's; it is discharged by the token work. *)
 Theorem C01_fresh_bytes : forall S p vr ts,
+  pend p = [] ->   (* the parser holds no bytes of an unfinished utf-8 character back (K04a repair) *)
   source_ok S vr -> canvas (scr p) -> ground (vt p) ->
   grows (g (scr p)) = grows (cur S) -> gcols (g (scr p)) = gcols (cur S) ->
   mmode (scr p) = MNone -> menc (scr p) = EDefault ->
